@@ -126,4 +126,16 @@ def serializeLayers (b : SBuf) (ls : List Ser) : Res SBuf :=
       else .err "serialize"
   go (clear b) ls.reverse
 
+/-- SerializeLayers together with what is observable while it runs: the `Layers()` list each serializer
+    finds when its SerializeTo is called (innermost serializer first) and the buffer as SerializeLayers
+    leaves it — also when it returns an error (the failing serializer's PushLayer never happens). -/
+def serializeLayersObs (b : SBuf) (ls : List Ser) : Res Unit × SBuf × List (List Int) :=
+  let rec go (b : SBuf) (obs : List (List Int)) : List Ser → Res Unit × SBuf × List (List Int)
+    | [] => (.ok (), b, obs)
+    | l :: rest =>
+      if l.ok (contents b) then
+        go (step (step b (.prepend (l.hdr (contents b)))) (.push l.typ)) (obs ++ [b.layers]) rest
+      else (.err "serialize", b, obs ++ [b.layers])
+  go (clear b) [] ls.reverse
+
 end Gp.SBuf
